@@ -44,25 +44,21 @@ func init() {
 		f.p("Definition ScoreInf : Z := %d.\n", int64(chess.Inf))
 		f.p("(* move/store.go *)\n")
 		f.p("Definition StoreSize : Z := %d.\n", int64(move.StoreSize))
-		// field layout of move.Move, recovered from the constructors
-		f.p("(* move/move.go: field layout of the 16 bit move encoding (shift, width) *)\n")
-		shiftWidth := func(full uint16) (int, int) {
-			s, w := 0, 0
-			for full != 0 && full&1 == 0 {
-				full >>= 1
-				s++
-			}
-			for full&1 == 1 {
-				full >>= 1
+		// The models see moves in the CANONICAL wire encoding of harness/hx/move.go (to 0..5, from 6..11,
+		// promotion 12..14), built from move.To()/From()/Promo(); the engine's own packing of move.Move is
+		// not observable through the streams any more. The widths are still read from the constructors: a
+		// field that no longer holds 64 squares / 8 piece codes makes the C16 band lemmas fail.
+		f.p("(* canonical wire layout of a move (harness/hx/move.go); widths from move/move.go *)\n")
+		width := func(full uint16) int {
+			w := 0
+			for ; full != 0; full &= full - 1 {
 				w++
 			}
-			return s, w
+			return w
 		}
-		ts, tw := shiftWidth(uint16(move.To(chess.Square(63))))
-		fs, fw := shiftWidth(uint16(move.From(chess.Square(63))))
-		ps, pw := shiftWidth(uint16(move.Promo(chess.Piece(7))))
-		f.p("Definition MoveToShift : Z := %d.\nDefinition MoveToBits : Z := %d.\n", ts, tw)
-		f.p("Definition MoveFromShift : Z := %d.\nDefinition MoveFromBits : Z := %d.\n", fs, fw)
-		f.p("Definition MovePromoShift : Z := %d.\nDefinition MovePromoBits : Z := %d.\n", ps, pw)
+		tw, fw, pw := width(uint16(move.To(chess.Square(63)))), width(uint16(move.From(chess.Square(63)))), width(uint16(move.Promo(chess.Piece(7))))
+		f.p("Definition MoveToShift : Z := 0.\nDefinition MoveToBits : Z := %d.\n", tw)
+		f.p("Definition MoveFromShift : Z := 6.\nDefinition MoveFromBits : Z := %d.\n", fw)
+		f.p("Definition MovePromoShift : Z := 12.\nDefinition MovePromoBits : Z := %d.\n", pw)
 	})
 }
